@@ -45,15 +45,15 @@ Definition maxabs (v : list Qc) : Qc := fold_right (fun x m => Qcmax (Qcabs x) m
       of epsilon the path taken is decided by the last bits: either path is accepted.
    2. The convergence test after the iteration: the loop goes on iff the normalised dot product of the
       orthogonalised row and the new row is outside [1 - eps, 1 + eps].  [last] = no further iteration was observed;
-      [limit] = the iteration limit was reached (then the test does not matter).  Not compared within eps/10000 of a
-      bound, nor when the orthogonalised row is 1000 times smaller than the row (cancellation).
+      [limit] = the iteration limit was reached (then the test does not matter).  Not compared within eps/1000 of a
+      bound, nor when the orthogonalised row is 30 times smaller than the row (cancellation).
    A row that vanishes EXACTLY under orthogonalisation (ZeroDivisionError in the model) leaves an arbitrary 1e-16
    residue in binary64: not compared.  (vm_compute is strict: the alternatives sit in branches of [if].) *)
 Definition stop_part (eps : Qc) (fm c co c' : list Qc) (last limit : bool) : bool :=
-  if Qcltb (maxabs co * qc 1000 1) (maxabs c) then true else
+  if Qcltb (maxabs co * qc 30 1) (maxabs c) then true else
   match abs_norm_dot_product co c' fm with
   | Ok dp =>
-      let band := eps * qc 1 10000 in
+      let band := eps * qc 1 1000 in
       if Qcltb (Qcabs (dp - (1 - eps))) band then true
       else if Qcltb (Qcabs (dp - (1 + eps))) band then true
       else if last then (if limit then true else negb (goes_on eps dp)) else goes_on eps dp
